@@ -209,6 +209,8 @@ package metadatapart
 //@ effect[C01:readers-planned-from-the-object-read] every mbs.createRangeReader($c, $t, $o, $r) where $o == object
 //@ effect[C01:readers-carry-the-transaction-iff-the-stores-need-one] every mbs.createRangeReader($c, $t, $o, $r)
 //@     where (txFreeStreaming ==> $t == nil && $c == streamCtx) && (!txFreeStreaming ==> $t == tx && $c == ctx)
+//@ effect[C36:readers-depend-on-nothing-a-sibling-can-end] every mbs.createRangeReader($c, $t, _, _)
+//@     where ($c == ctx || $c == streamCtx) && ($t == nil || $t == tx)
 //@ effect[C01:ranges-normalised-against-the-objects-size] every normalizeAndValidateRanges($rs, $size) where $size == object.Size
 //@ effect[C01:object-looked-up-under-the-requested-name] every mbs.metadataStore.HeadObject(_, _, $b, $k) where $b == bucketName && $k == key
 
